@@ -28,6 +28,10 @@ def registry():
         if os.path.exists(os.path.join(C.VERIF, "lean", "TinyFlux", "Props", f"{pid}Witness.lean")):
             # non-vacuity: the hypotheses of the property's theorems hold of concrete, non-trivial states
             ent["lean"].append(f"TinyFlux.Props.{pid}Witness")
+        if os.path.exists(os.path.join(C.VERIF, "lean", "TinyFlux", "Props", f"{pid}Mirror.lean")):
+            # theorems over Generated/IndexImpl.lean: index.py translated method by method (class mode of the translator)
+            ent["lean"].append(f"TinyFlux.Props.{pid}Mirror")
+            ent["gen"] = tuple(ent.get("gen", ())) + ("IndexImpl",)
         ent["gen"] = tuple(ent.get("gen", ())) + ("Footprint", "CallGraph")
     return reg
 
